@@ -223,9 +223,17 @@ func errDiscipline(c *Ctx, r *Report, rule string, scope func(*Fn) bool, consequ
 			}
 			r.Violate(rule, r.Key(rule, fn, "dropped-error", d.Call), d.Pos, what+": "+consequence)
 		}
+		for _, d := range errPolarity(p, fn) {
+			nd++
+			if d.Kind == "failed-then-success" {
+				r.Violate(rule, r.Key(rule, fn, "failed-then-success", d.Var), d.Pos, fmt.Sprintf("%s returns a nil error at %s on a path where %s is known to be non-nil and was not looked at again: a failed step is reported as success: %s", fn.Name, p.Pos(d.Pos), d.Var, consequence))
+				continue
+			}
+			r.Violate(rule, r.Key(rule, fn, "inverted-error-test", d.Call), d.Pos, fmt.Sprintf("%s builds a failure from %s on a path where %s is known to be nil: the test of the error is inverted — the step's success is reported as a failure and its failure goes on with the zero values: %s", d.Call, d.Var, d.Var, consequence))
+		}
 	}
 	if nd == 0 {
-		r.Hold(rule, r.Key(rule, nil, "errors-examined", ""), token.NoPos, true, fmt.Sprintf("every stored error result is examined before it is overwritten or the function ends, in %d functions", nf))
+		r.Hold(rule, r.Key(rule, nil, "errors-examined", ""), token.NoPos, true, fmt.Sprintf("every stored error result is examined before it is overwritten or the function ends, and no failure is built from an error known to be nil, in %d functions", nf))
 	}
 	r.Floor(rule, "functions under error discipline", nf, 3)
 }
@@ -253,4 +261,113 @@ func rootNamed(fn *Fn, names ...string) bool {
 var deliberateDiscards = map[string]string{
 	"entry.(*Fetcher).processQueue$1/f.fetchEntry": "a block that cannot be fetched or decoded is skipped: the worker tests the entry value for nil (R-C12.3) and the accounting runs on both paths (R-C11.6)",
 	"ipfslog.(*IPFSLog).values/l.traverse":         "traverse only fails for a nil start set, which values() excludes just before the call",
+}
+
+// errPolarity: contradictions between what a path knows about an error variable and what it does with it.
+//   nil-wrapped:  on a path where the variable is known to be nil (the nil edge of its test, no assignment
+//                 since) it is handed to a call that builds an error from it (errmsg.X.Wrap(err),
+//                 fmt.Errorf("…%w", err)) — the test is inverted: the success path reports a failure made of
+//                 nil and the failure path carries on with the zero value.
+// A plain `return x, err` with a known-nil err is the usual tail idiom and is not reported.
+func errPolarity(p *Prog, fn *Fn) []errDrop {
+	if fn.Body == nil || fn.CFG == nil {
+		return nil
+	}
+	var out []errDrop
+	seen := map[token.Pos]bool{}
+	fl := &Flow{P: p, Fn: fn, Entry: Facts{}}
+	fl.Edge = func(cond ast.Expr, taken bool, f Facts) {
+		for _, a := range splitCond(cond, taken) {
+			if x, isNil, ok := nilTest(a); ok && isNil {
+				if id, ok := ast.Unparen(x).(*ast.Ident); ok {
+					if o := p.ObjOf(fn, id); o != nil && isErrorType(o.Type()) {
+						f["nil|"+p.ID(o)] = true
+					}
+				}
+			}
+		}
+	}
+	fl.Node = func(n ast.Node, f Facts) {
+		for _, id := range assignedIdents(n) {
+			if o := p.ObjOf(fn, id); o != nil {
+				delete(f, "nil|"+p.ID(o))
+			}
+		}
+		// a literal that captures the variable may assign it
+		walkNoLit(n, func(nd ast.Node) bool {
+			if lit, ok := nd.(*ast.FuncLit); ok {
+				ast.Inspect(lit.Body, func(m ast.Node) bool {
+					if id, ok := m.(*ast.Ident); ok {
+						if o := p.ObjOf(fn, id); o != nil {
+							delete(f, "nil|"+p.ID(o))
+						}
+					}
+					return true
+				})
+			}
+			return true
+		})
+	}
+	fl.Run()
+	// failed-then-success: on a path where the variable is known to be non-nil and has not been read since, the
+	// function returns a literal nil error
+	ff := &Flow{P: p, Fn: fn, May: true, Entry: Facts{}}
+	ff.Edge = func(cond ast.Expr, taken bool, f Facts) {
+		for _, a := range splitCond(cond, taken) {
+			if x, isNil, ok := nilTest(a); ok && !isNil {
+				if id, ok := ast.Unparen(x).(*ast.Ident); ok {
+					if o := p.ObjOf(fn, id); o != nil && isErrorType(o.Type()) {
+						f["failed|"+p.ID(o)+"|"+id.Name] = true
+					}
+				}
+			}
+		}
+	}
+	ff.Node = func(n ast.Node, f Facts) {
+		if ret, ok := n.(*ast.ReturnStmt); ok && len(ret.Results) > 0 && fnReturnsError(p, fn) {
+			if isNilIdent(ret.Results[len(ret.Results)-1]) {
+				for k := range f {
+					if strings.HasPrefix(k, "failed|") && !seen[ret.Pos()] {
+						seen[ret.Pos()] = true
+						out = append(out, errDrop{Pos: ret.Pos(), At: ret.Pos(), Var: k[strings.LastIndex(k, "|")+1:], Call: "return", Kind: "failed-then-success"})
+					}
+				}
+			}
+		}
+		// any mention of the variable (read or write) ends the knowledge
+		ast.Inspect(n, func(m ast.Node) bool {
+			if id, ok := m.(*ast.Ident); ok {
+				if o := p.ObjOf(fn, id); o != nil && isErrorType(o.Type()) {
+					f.DelPrefix("failed|" + p.ID(o) + "|")
+				}
+			}
+			return true
+		})
+	}
+	ff.Run()
+	fl.Visit(func(_ *cfgBlk, n ast.Node, before Facts) {
+		walkNoLit(n, func(nd ast.Node) bool {
+			call, ok := nd.(*ast.CallExpr)
+			if !ok {
+				return true
+			}
+			if t := p.TypeOf(fn, call); t == nil || !isErrorType(t) {
+				return true
+			}
+			for _, a := range call.Args {
+				id, ok := ast.Unparen(a).(*ast.Ident)
+				if !ok {
+					continue
+				}
+				o := p.ObjOf(fn, id)
+				if o == nil || !isErrorType(o.Type()) || !before["nil|"+p.ID(o)] || seen[call.Pos()] {
+					continue
+				}
+				seen[call.Pos()] = true
+				out = append(out, errDrop{Pos: call.Pos(), At: call.Pos(), Var: id.Name, Call: types.ExprString(call.Fun), Kind: "nil-wrapped"})
+			}
+			return true
+		})
+	})
+	return out
 }
